@@ -1,5 +1,5 @@
 (* C15 property theorems: statements + `exact lemma` only. *)
-From CJ Require Import Common.Base C15.Model C15.Proofs C15.ModelName C15.ProofsName C15.ModelObf C15.ProofsObf C15.ModelAny C15.ProofsAny C15.ModelDns C15.ProofsDns C15.ModelExch C15.ProofsExch C15.ModelB32 C15.ProofsB32 C15.ModelPb C15.ProofsPb C15.ModelDot C15.ProofsDot.
+From CJ Require Import Common.Base C15.Model C15.Proofs C15.ModelName C15.ProofsName C15.ModelObf C15.ProofsObf C15.ModelAny C15.ProofsAny C15.ModelDns C15.ProofsDns C15.ModelExch C15.ProofsExch C15.ModelB32 C15.ProofsB32 C15.ModelPb C15.ProofsPb C15.ModelDot C15.ProofsDot C15.ProofsCount.
 
 Theorem C15_request_format_roundtrip :
   forall p e, add_request_format p = Some e -> remove_request_format e = Some p.
@@ -202,3 +202,17 @@ Theorem C15_anypb_wrong_url_rejected :
 Proof. exact anypb_wrong_url_rejected. Qed.
 Print Assumptions C15_anypb_wrong_url_rejected.
 
+
+(* the chunking loop of requester.send cuts a payload of length L into exactly ceil(L/n) labels (n = 63 on the wire):
+   with C15_chunks_concat / C15_labels_ok / C15_chunks_greedy this fixes the label sequence completely *)
+Theorem C15_chunks_count : forall n p, 0 < n -> N.of_nat (length (chunks n p)) = (blen p + n - 1) / n.
+Proof. exact chunks_count. Qed.
+Print Assumptions C15_chunks_count.
+
+Theorem C15_chunks63_count : forall p, N.of_nat (length (chunks 63 p)) = (blen p + 62) / 63.
+Proof. exact chunks63_count. Qed.
+Print Assumptions C15_chunks63_count.
+
+Theorem C15_chunks_nil_iff : forall n p, 0 < n -> (chunks n p = [] <-> p = []).
+Proof. exact chunks_nil_iff. Qed.
+Print Assumptions C15_chunks_nil_iff.
